@@ -32,9 +32,16 @@ func PathOf(v ssa.Value) string {
 		return s
 	}
 	var parts []string
+	seen := map[string]bool{}
 	for _, r := range rs {
 		s, _ := AccessPath(r)
-		parts = append(parts, s)
+		if !seen[s] {
+			seen[s] = true
+			parts = append(parts, s)
+		}
+	}
+	if len(parts) == 1 {
+		return parts[0]
 	}
 	return "{" + strings.Join(parts, "|") + "}"
 }
@@ -219,18 +226,34 @@ func StoresToField(fns []*ssa.Function, typ, field string) []*ssa.Store {
 func LiteralField(alloc ssa.Value, field string) (ssa.Value, bool) {
 	var val ssa.Value
 	n := 0
-	for _, r := range Refs(alloc) {
-		fa, ok := r.(*ssa.FieldAddr)
-		if !ok || fieldName(fa.X.Type(), fa.Field) != field {
-			continue
-		}
-		for _, u := range Refs(fa) {
-			if st, ok := u.(*ssa.Store); ok && st.Addr == fa {
-				val = st.Val
-				n++
+	var scan func(base ssa.Value, depth int)
+	scan = func(base ssa.Value, depth int) {
+		for _, r := range Refs(base) {
+			switch x := r.(type) {
+			case *ssa.FieldAddr:
+				if fieldName(x.X.Type(), x.Field) != field {
+					continue
+				}
+				for _, u := range Refs(x) {
+					if st, ok := u.(*ssa.Store); ok && st.Addr == x {
+						val = st.Val
+						n++
+					}
+				}
+			case *ssa.Call:
+				// the struct is handed to a new helper (e.g. a fill/init method split off the
+				// constructor): its stores through the parameter belong to the literal
+				if h := syncHelperCallee(x); h != nil && depth < 3 {
+					for k, a := range x.Call.Args {
+						if a == base && k < len(h.Params) {
+							scan(h.Params[k], depth+1)
+						}
+					}
+				}
 			}
 		}
 	}
+	scan(alloc, 0)
 	return val, n == 1
 }
 
